@@ -121,7 +121,7 @@ PROPS = {
                           thm("pin_gofmt", "Pin_gofmt"), thm("pin_goimports", "Pin_goimports"),
                           thm("moq_template_marker_first", "TmplMarker"),
                           thm("C16_marker_first_line", "TmplMarker")],
-                oracle=O.o_c16, known=[]),
+                oracle=O.o_c16, known=["goimports_sibling_capture"]),
     "C17": dict(kind="cli", files=["Cli.v", "Cli_Proofs.v", ],
                 theorems=[thm("C17_fail_no_stdout", "Cli_Proofs"), thm("C17_fail_out_untouched", "Cli_Proofs"),
                           thm("C17_success", "Cli_Proofs"), thm("C17_write_refuted", "Cli_Proofs"),
@@ -302,8 +302,8 @@ def run(ctx):
                 nontrivial.add(key)
             fams = set(cr["families"])
             for _, sym in fails:
-                if sym == "transient_qualifier_rename":
-                    fams.add("transient_qualifier_rename")
+                if sym in ("transient_qualifier_rename", "goimports_sibling_capture"):
+                    fams.add(sym)
             if cr["verdict"] == "ok-diverges":
                 fams.add("alias_resolution_diverges")
             if cr["verdict"] == "ok-crash":
